@@ -276,6 +276,17 @@ class VerTheory:
             return getattr(o, attr)
         return None
 
+    def equals_other(self, ex, l, r):
+        """== of two texts: texts of the same kind are equal iff their parts are; a text with appended '.0' segments never equals the unpadded one"""
+        if isinstance(l, VersionText) and isinstance(r, VersionText):
+            return l.term == r.term
+        for a, c in ((l, r), (r, l)):
+            if isinstance(a, PaddedText) and isinstance(c, VersionText):
+                return False if a.zeros > 0 and a.term is c.term else None
+        if isinstance(l, PaddedText) and isinstance(r, PaddedText) and l.term is r.term:
+            return l.zeros == r.zeros
+        return None
+
     def contains_other(self, ex, container, item):
         if isinstance(container, (VersionText, RelText, PaddedText)) and item == "*":
             return isinstance(container, RelText) and container.wild
